@@ -18,7 +18,7 @@ from vf.runner import Violation
 ID = "C17"
 LEVEL = "exploration"
 TECHNIQUE = "generated timed event sequences (Hypothesis) under a harness-owned clock vs reference lifetime model; small real-time cross-check in the thorough tier"
-RULE = ("cases = timelines over <= 4 instances: create with a timeout given in one unit or a mix of units (weeks .. microseconds), "
+RULE = ("cases = timelines over <= 5 instances: create (start-instance with or without a session, or a start-instances batch) with a timeout given in one unit or a mix of units (weeks .. microseconds), "
         "instance-scoped requests (run-step, session-results, begin-session), keep-alive, metrics, full-metrics, and clock advances "
         "to just before / exactly at / just after an instance's expiry; with and without FileAdapter. After every event the server "
         "is compared with the reference: not-expired instances answer and are counted, instances expired at a sweep (metrics, "
@@ -116,6 +116,25 @@ def check_case(case):
     def now():
         return clock.t
 
+    unknown = {}
+
+    def unknown_answer(how):
+        """what this server build answers for an id that never existed (asked of a separate, empty server)"""
+        if how not in unknown:
+            app2 = BptkServer(__name__ + "_probe", bptk_factory=lambda: bptk())
+            app2.logger.disabled = True
+            c2 = app2.test_client()
+            path = "/0123456789abcdef0123456789abcdef/" + how
+            if how == "session-results":
+                r = c2.get(path)
+            elif how == "begin-session":
+                r = c2.post(path, json={"scenario_managers": [SM], "scenarios": [SC], "equations": ["s"]})
+            else:
+                r = c2.post(path)
+            unknown[how] = (r.status_code, r.get_data())
+            app2._bptk.destroy()
+        return unknown[how]
+
     def is_expired(i):
         return (now() - last[i]) >= real_dt.timedelta(microseconds=tout[i])
 
@@ -147,7 +166,37 @@ def check_case(case):
     try:
         for opno, op in enumerate(case["ops"]):
             kind = op[0]
-            if kind == "create":
+            if kind == "create" and len(op) > 2 and op[2] == "batch":
+                # several instances from one /start-instances request; no session is begun on them
+                td = op[1]
+                resp = client.post("/start-instances", json={"timeout": td, "instances": op[3]})
+                if resp.status_code != 200:
+                    vs.append(Violation("create-failed", "op #%d: start-instances -> %d" % (opno, resp.status_code)))
+                    break
+                new = json.loads(resp.data)["instance_uuids"]
+                if len(new) != op[3] or len(set(new)) != op[3]:
+                    vs.append(Violation("create-count", "op #%d: start-instances for %d instances returned %r" % (opno, op[3], new)))
+                    break
+                for iid in new:
+                    ids.append(iid)
+                    tout[iid] = timeout_micros(td)
+                    last[iid] = now()
+                # the sweep ran before the batch was created
+                for i in list(last):
+                    if i not in new and i not in gone and is_expired(i):
+                        gone.add(i)
+                        expired_any[0] = True
+                present = set(im._instances.keys())
+                for i in last:
+                    if i in gone and i in present:
+                        vs.append(Violation("expired-still-present:instance-creation",
+                                            "op #%d %r: instance #%d (timeout %dus, idle %s) is expired but still held after a batch creation"
+                                            % (opno, op, ids.index(i), tout[i], now() - last[i])))
+                    if i not in gone and i not in present and i not in externalised:
+                        vs.append(Violation("alive-but-removed:instance-creation",
+                                            "op #%d %r: instance #%d (timeout %dus, idle %s) is not expired but was removed at a batch creation"
+                                            % (opno, op, ids.index(i), tout[i], now() - last[i])))
+            elif kind == "create":
                 td = op[1]
                 resp = client.post("/start-instance", json={"timeout": td})
                 if resp.status_code != 200:
@@ -158,6 +207,8 @@ def check_case(case):
                 tout[iid] = timeout_micros(td)
                 last[iid] = now()
                 sweep("instance-creation", opno, op, exclude=iid)
+                if len(op) > 2 and op[2] == "nosession":
+                    continue
                 r2 = client.post("/%s/begin-session" % iid, json={"scenario_managers": [SM], "scenarios": [SC], "equations": ["s"]})
                 if r2.status_code != 200 and tout[iid] > 0:
                     vs.append(Violation("fresh-instance-refused", "op #%d: begin-session on a fresh instance -> %d" % (opno, r2.status_code)))
@@ -205,9 +256,13 @@ def check_case(case):
                     resp = client.post("/%s/run-step" % i)
                 elif how == "session-results":
                     resp = client.get("/%s/session-results" % i)
+                elif how == "end-session":
+                    resp = client.post("/%s/end-session" % i)
                 else:
                     resp = client.post("/%s/begin-session" % i, json={"scenario_managers": [SM], "scenarios": [SC], "equations": ["s"]})
-                ok = resp.status_code == 200
+                # served = anything but the answer an unknown id gets (an instance without a session answers run-step with an
+                # error of its own, which is still an access)
+                ok = (resp.status_code, resp.get_data()) != unknown_answer(how)
                 if not was_gone and not was_expired:
                     if not ok:
                         vs.append(Violation("alive-refused:" + how, "op #%d %r: instance #%d (timeout %dus, idle %s) is alive but %s -> %d %r"
@@ -234,7 +289,7 @@ def check_case(case):
                         last[i] = now()
                     else:
                         gone.add(i)
-                if ok and how == "run-step" and adapter is not None:
+                if ok and resp.status_code == 200 and how == "run-step" and adapter is not None:
                     externalised.add(i)
                 if ok and how == "begin-session" and i in externalised and adapter is not None:
                     pass
@@ -280,14 +335,21 @@ def timeout_strategy():
 def case_strategy():
     @st.composite
     def build(draw):
-        ops = [["create", draw(timeout_strategy())]]
-        ncreated = 1
+        first = draw(st.sampled_from(["session", "session", "nosession", "batch"]))
+        ops = [["create", draw(timeout_strategy()), "batch", 2] if first == "batch" else ["create", draw(timeout_strategy()), first]]
+        ncreated = 2 if first == "batch" else 1
         for _ in range(draw(st.integers(3, 14))):
             k = draw(st.sampled_from(["create", "advance", "advance", "advance", "access", "access", "metrics", "full-metrics"]))
             if k == "create":
                 if ncreated < 4:
-                    ops.append(["create", draw(timeout_strategy())])
-                    ncreated += 1
+                    mode = draw(st.sampled_from(["session", "session", "nosession", "batch"]))
+                    if mode == "batch":
+                        cnt = draw(st.integers(1, min(2, 5 - ncreated)))
+                        ops.append(["create", draw(timeout_strategy()), "batch", cnt])
+                        ncreated += cnt
+                    else:
+                        ops.append(["create", draw(timeout_strategy()), mode])
+                        ncreated += 1
             elif k == "advance":
                 mode = draw(st.sampled_from(["before", "at", "after", "abs"]))
                 eps = draw(st.sampled_from([1, 1000, 10 ** 6, 60 * 10 ** 6]))
@@ -296,7 +358,7 @@ def case_strategy():
                 else:
                     ops.append(["advance", draw(st.integers(0, 3)), mode, eps])
             elif k == "access":
-                ops.append(["access", draw(st.integers(0, 3)), draw(st.sampled_from(["keep-alive", "run-step", "session-results", "begin-session", "run-step"]))])
+                ops.append(["access", draw(st.integers(0, 3)), draw(st.sampled_from(["keep-alive", "run-step", "session-results", "begin-session", "run-step", "end-session"]))])
             else:
                 ops.append([k])
         return {"adapter": draw(st.booleans()), "ops": ops}
@@ -306,7 +368,9 @@ def case_strategy():
 def _body(ctx):
     def body(case):
         info, vs = check_case(case)
-        ctx.case(case, nontrivial=info["nontrivial"], labels=["adapter:%s" % case["adapter"]] + sorted(set("op:" + o[0] for o in case["ops"])), key=case)
+        ctx.case(case, nontrivial=info["nontrivial"], labels=["adapter:%s" % case["adapter"]] + sorted(set("op:" + o[0] for o in case["ops"])) +
+                 sorted(set("create:" + (o[2] if len(o) > 2 else "session") for o in case["ops"] if o[0] == "create")) +
+                 sorted(set("access:" + o[2] for o in case["ops"] if o[0] == "access")), key=case)
         ctx.report(vs)
     return body
 
